@@ -146,6 +146,32 @@ static void clean_case(const args_t *a, long idx, unsigned off, size_t size)
     free(ref);
 }
 
+static void clean_huge(const args_t *a, long idx, unsigned size)
+{
+    size_t total = (size_t)size + 2 * 4096, i, bad = 0;
+    uint8_t *m = (uint8_t *)mmap(NULL, total, PROT_READ | PROT_WRITE, MAP_PRIVATE | MAP_ANONYMOUS | MAP_NORESERVE, -1, 0), *p;
+    const uint64_t *w;
+    if (m == MAP_FAILED) { perror("mmap"); exit(2); }
+    set_case("{\"h\":\"erase\",\"mode\":\"clean-huge\",\"i\":%ld,\"offset\":3,\"size\":%u}", idx, size);
+    ++n_eval; ++n_clean; n_clean_bytes += size;
+    cls_add(mix64(0xC1EB, size));
+    emit_sample();
+    memset(m, 0x5A, total);
+    p = m + 4096 + 3;
+    tinyjambu_clean(p, size);
+    for (i = 0; i < 4096 + 3; ++i) if (m[i] != 0x5A) ++bad;
+    for (i = (size_t)size + 4096 + 3; i < total; ++i) if (m[i] != 0x5A) ++bad;
+    if (bad) emit_viol("clean-wipes-outside", "size %u: %zu bytes outside the range were modified", size, bad);
+    bad = 0;
+    for (i = 0; i < 5 && i < size; ++i) if (p[i]) ++bad;                       /* unaligned head */
+    w = (const uint64_t *)(p + 5);
+    for (i = 0; i + 8 <= (size_t)size - 5; i += 8) if (w[i / 8]) { ++bad; break; }
+    for (i = ((size_t)size - 5) & ~(size_t)7; i < (size_t)size - 5; ++i) if (p[5 + i]) ++bad;
+    if (bad) emit_viol("clean-leaves-bytes:top-bit-sizes", "size %u (top bit of the unsigned parameter set): the range is not zero", size);
+    n_arena_bytes += total;
+    munmap(m, total);
+}
+
 int main(int argc, char **argv)
 {
     args_t a = parse_args(argc, argv);
@@ -161,6 +187,8 @@ int main(int argc, char **argv)
             for (sz = 0; sz <= N; ++sz, ++idx)
                 if (mine(&a, idx)) clean_case(&a, idx, (unsigned)off, (size_t)sz);
         for (i = 0; i < 6 * 4; ++i, ++idx) if (mine(&a, idx)) clean_case(&a, idx, (unsigned)(i * 5 % 16), BIG[i % 6]);
+        /* sizes whose top bit is set (the parameter is `unsigned`): 2^31 + 5 always, 2^32 - 1 in the thorough tier */
+        for (i = 0; i < (a.thorough ? 2 : 1); ++i, ++idx) if (mine(&a, idx) && a.p2 == 1) clean_huge(&a, idx, i ? 0xFFFFFFFFu : 0x80000005u);
     } else { fprintf(stderr, "bad mode\n"); return 2; }
     emit_stat("evaluations", n_eval); emit_stat("hash_free_readbacks", n_free[0]); emit_stat("hmac_free_readbacks", n_free[1]);
     emit_stat("hkdf_free_readbacks", n_free[2]); emit_stat("prng_free_readbacks", n_free[3]); emit_stat("state_bytes_read_back", n_state_bytes);
